@@ -681,6 +681,22 @@ func (p *c12) sortOrder(x *res, adapter string, ctx *runner.Ctx) {
 				}
 				x.viol(rule, c.t+"-sort-key", fmt.Sprintf("[%s] %s sort keys rev=%v: %s", adapter, c.name, rev, d.Detail), map[string]interface{}{"adapter": adapter, "type": c.t, "keys": c.keys, "rev": rev})
 			}
+			// ranges over BINARY sort keys select by byte value (9 < 10 < 10,0 < 11 < 100), as key condition and as filter
+			if c.t == "B" {
+				for _, rg := range [][2]string{{"\x09", "\x0a"}, {"\x0a", "\x64"}, {"\x00", "\x0a\x00"}, {"\x01", "\x0b"}, {"\x0a", "\xff"}} {
+					bt := &refmodel.Cond{Op: "between", Args: []refmodel.Operand{{Kind: "path", Path: refmodel.P("r")}, {Kind: "val", Val: ":lo"}, {Kind: "val", Val: ":hi"}}}
+					vals := val.Item{":h": val.Str("p"), ":lo": val.Bin(rg[0]), ":hi": val.Bin(rg[1])}
+					for fi, op := range []adapt.Op{queryOp(spec.Name, "", &refmodel.Cond{Op: "and", Kids: []*refmodel.Cond{keyCondEq("h", ":h"), bt}}, nil, vals, rev, rrCanon),
+						queryOp(spec.Name, "", keyCondEq("h", ":h"), bt, vals, rev, rrCanon)} {
+						got := cl.Do(op)
+						x.r.Evals++
+						x.r.Counters["binary_range_reads"]++
+						for _, d := range m.Step(op, got) {
+							x.viol(d.Rule, "B-sort-key-range", fmt.Sprintf("[%s] r BETWEEN %v AND %v (%s): %s", adapter, []byte(rg[0]), []byte(rg[1]), []string{"key condition", "filter"}[fi], d.Detail), map[string]interface{}{"adapter": adapter, "lo": []byte(rg[0]), "hi": []byte(rg[1]), "as": fi})
+						}
+					}
+				}
+			}
 			// sort-key conditions on numeric keys by value
 			if c.t == "N" {
 				for _, cmp := range []string{"<", ">="} {
